@@ -743,6 +743,11 @@ def gen_c17(rng, tier):
         cls = rng.choice(["ctx_width", "ctx_rows", "predict_ctx_presence", "ctx_presence"])
     elif base["lp"][0] == "thompson" and base["lp"][1] is None and z < 0.7:
         cls = "nonbinary_ts"
+    if rng.random() < 0.12:
+        # a linear policy with scale=True, arms without observations (omitted from the batches or added later), and a
+        # call rejected from inside training: the per-arm scalers must not keep anything of it
+        base = gen.gen_ctx_case(rng, nps=["none"], lps=gen.LIN_KINDS, max_ops=4, warm=False, force_scale=True, force_dim=rng.randint(2, 4))
+        pos = rng.randint(1, len(base["ops"])); cls = "ctx_width"
     return {"base": base, "pos": pos, "cls": cls, "seed2": rng.randint(0, 10**9)}
 
 def bad_call(mab, label, inv, base, cls, rng, d, arms, fitted):
